@@ -146,10 +146,11 @@ impl Gatekeeper {
         &self,
         user_id: UserId,
     ) -> Result<RegistrationReceipt, MaxSlotsReached> {
-        let block_count = self.last_known_block_height.load(Ordering::Acquire);
-
         // TODO: For now, new calls to `add_update_user` add subscription_slots to the current count and reset the expiry time
         let mut registered_users = self.registered_users.lock().unwrap();
+        // The height is read with the users lock held: the block handler moves it forward under the same lock, so a new
+        // subscription cannot start at the height of a block whose purge has already run.
+        let block_count = self.last_known_block_height.load(Ordering::Acquire);
         let user_info = match registered_users.get_mut(&user_id) {
             // User already exists, updating the info
             Some(user_info) => {
